@@ -51,15 +51,18 @@ import (
 //
 // TotalAlloc delta (+ stack growth) of one Decode call  <=  allocPerByte*len(payload) + allocFixedCap
 //
-// Calibrated on the unchanged tree (see evidence keys calibration_*): the largest legitimate
-// fixed allocation is a pre-allocated collection of util.MaxPreAllocSize (32768) elements of the
-// largest element type (profile.Property, 48 bytes = 1.5 MiB; a map[string]string of that size
-// hint is about 1.6 MiB); the largest per-byte expansion observed is the command graph of
-// AvailableCommands (a 5-byte wire node becomes a builder, a node and a map entry). Both
-// constants carry a margin of at least 4x over the observed maxima.
+// Calibrated on the unchanged tree (evidence keys calibration_*, re-measured by every run):
+//   - fixed part: the largest allocation observed for a payload of <= 64 bytes by a type that is
+//     not in violation is a collection pre-allocated for util.MaxPreAllocSize (32768) entries:
+//     2.7 MB (CustomReportDetails' map[string]string), 1.6 MB ([]profile.Property), 1.0 MB
+//     (a 262144*4-byte string buffer). With the proposed TagsUpdate repair (two map levels capped
+//     at MaxPreAllocSize) it is 5.2 MB. 24 MiB is 9x resp. 4.6x that.
+//   - per byte: the largest (alloc - fixed part)/len observed on payloads >= 4 KiB is about 100-140
+//     (NBT and JSON text components captured twice, command graphs); 512 is >= 3.6x the largest
+//     value ever seen including the fixed part (278) and >= 4x the real expansion.
 const (
-	allocFixedCap = 16 << 20 // 16 MiB
-	allocPerByte  = 1024     // bytes allocated per payload byte
+	allocFixedCap = 24 << 20 // 24 MiB
+	allocPerByte  = 512      // bytes allocated per payload byte
 	caseWatchdog  = 8 * time.Second
 	addressSpace  = 6 << 30 // RLIMIT_AS of a child
 )
@@ -238,7 +241,7 @@ func body(t target, seed int64, j int, thorough bool) (kind string, b []byte) {
 			}
 		}
 	case "hostile-structure":
-		b = hostileStructure(r, thorough)
+		b = hostileStructure(r, thorough, j/len(kinds))
 	}
 	return kind, b
 }
@@ -246,9 +249,9 @@ func body(t target, seed int64, j int, thorough bool) (kind string, b []byte) {
 // hostileStructure builds inputs aimed at the structured decoders: command graphs with
 // redirect chains / self references / huge child lists, NBT arrays and lists with huge counts,
 // collections that announce 2^31-1 entries.
-func hostileStructure(r *rand.Rand, thorough bool) []byte {
+func hostileStructure(r *rand.Rand, thorough bool, variant int) []byte {
 	var bb bytes.Buffer
-	switch r.Intn(6) {
+	switch variant % 7 {
 	case 0: // command graph: chain of redirects pointing forward (each pass resolves one node)
 		n := 50 + r.Intn(400)
 		if thorough && r.Intn(10) == 0 {
@@ -303,6 +306,13 @@ func hostileStructure(r *rand.Rand, thorough bool) []byte {
 			if r.Intn(2) == 0 {
 				bb.Write([]byte{1, 'k'})
 			}
+		}
+	case 5: // command graph whose nodes share one name and are their own descendants
+		// (105 nodes announced, node 0 is a root with 9 children, the rest literal nodes that
+		// all carry the empty name and list small indexes, themselves included, as children)
+		bb.Write([]byte{0x69, 0x00, 0x09})
+		for i := 0; i < 293+r.Intn(40); i++ {
+			bb.Write([]byte{0x09, 0, 0, 0, 1})
 		}
 	default: // 16 bytes of uuid then hostile counts (tab lists, boss bars, resource packs)
 		bb.Write(randBytes(r, 16))
@@ -373,8 +383,12 @@ func TestC05Child(t *testing.T) {
 	if err := syscall.Setrlimit(syscall.RLIMIT_AS, &syscall.Rlimit{Cur: addressSpace, Max: addressSpace}); err != nil {
 		res.RlimitErr = err.Error()
 	}
-	debug.SetGCPercent(50)
-	runtime.GOMAXPROCS(2)
+	debug.SetGCPercent(200)
+	// Unbounded recursion ends in "fatal error: stack overflow" at Go's default 1 GB limit
+	// only after many seconds; half of that is still 3x what the deepest legitimate nesting of
+	// a 2 MiB frame needs and lets the crash show before the watchdog.
+	debug.SetMaxStack(512 << 20)
+	runtime.GOMAXPROCS(1) // one busy goroutine: ReadMemStats is cheap and attributes exactly
 
 	cf, err := os.OpenFile(casePath, os.O_CREATE|os.O_RDWR|os.O_TRUNC, 0o644)
 	if err != nil {
@@ -416,7 +430,16 @@ func TestC05Child(t *testing.T) {
 			}
 		}
 	}
+	checkpoint := func(final bool) {
+		res.Done = final
+		b, _ := json.Marshal(res)
+		if err := os.WriteFile(outPath+".tmp", b, 0o644); err == nil {
+			_ = os.Rename(outPath+".tmp", outPath)
+		}
+	}
 	done := 0
+	var recBuf []byte
+	lastRecLen := 0
 	for idx := start; idx < total; idx++ {
 		if only >= 0 {
 			if idx != only {
@@ -429,6 +452,9 @@ func TestC05Child(t *testing.T) {
 		j := idx % perTarget
 		if done%32 == 0 && only < 0 {
 			loadQuarantine() // types another shard already crashed or hung on
+		}
+		if done%200 == 199 {
+			checkpoint(false) // what a dying child leaves behind for the parent's counters
 		}
 		done++
 		if skip[tg.row.TypeName] {
@@ -443,9 +469,15 @@ func TestC05Child(t *testing.T) {
 		frame := append(varint(len(payload)), payload...)
 
 		// the case goes to disk before anything is decoded
-		rec, _ := json.Marshal(map[string]any{"idx": idx, "row": tg.row.Key(), "type": tg.row.TypeName, "kind": kind, "j": j, "payload_len": len(payload), "payload_hex": hex.EncodeToString(payload)})
-		_, _ = cf.WriteAt(rec, 0)
-		_ = cf.Truncate(int64(len(rec)))
+		recBuf = recBuf[:0]
+		recBuf = fmt.Appendf(recBuf, `{"idx":%d,"row":%q,"type":%q,"kind":%q,"j":%d,"payload_len":%d,"payload_hex":"`, idx, tg.row.Key(), tg.row.TypeName, kind, j, len(payload))
+		recBuf = hex.AppendEncode(recBuf, payload)
+		recBuf = append(recBuf, '"', '}')
+		_, _ = cf.WriteAt(recBuf, 0)
+		if len(recBuf) < lastRecLen {
+			_ = cf.Truncate(int64(len(recBuf)))
+		}
+		lastRecLen = len(recBuf)
 
 		dec := codec.NewDecoder(bytes.NewReader(frame), tg.row.Dir, logr.Discard())
 		dec.SetProtocol(tg.row.Protocol)
@@ -540,11 +572,7 @@ func TestC05Child(t *testing.T) {
 			res.Distinct = append(res.Distinct, tg.row.Key()+"/"+hex.EncodeToString(h[:6]))
 		}
 	}
-	res.Done = true
-	b, _ := json.Marshal(res)
-	if err := os.WriteFile(outPath+".tmp", b, 0o644); err == nil {
-		_ = os.Rename(outPath+".tmp", outPath)
-	}
+	checkpoint(true)
 }
 
 // ---- parent --------------------------------------------------------------------------------------
@@ -557,7 +585,7 @@ func TestC05(t *testing.T) {
 	r.Assume(fmt.Sprintf("allocation bound: %d bytes per payload byte + %d bytes fixed; calibrated on the unchanged tree with a margin >= 4x over the observed legitimate maxima (see calibration_* keys)", allocPerByte, allocFixedCap))
 	r.Assume("inputs are in memory, so a Decode that does not return is a loop; a watchdog expiry is confirmed by re-running the case alone in a fresh process with 3x the budget before it counts")
 
-	perTarget := r.N(61, 4100)
+	perTarget := r.N(77, 4103)
 	nT := len(targets())
 	total := nT * perTarget
 	shards := runtime.NumCPU()
@@ -585,7 +613,7 @@ func TestC05(t *testing.T) {
 	var crashes, hangsConfirmed, hangsUnconfirmed, restarts int
 	quarantine := map[string]bool{}
 
-	runChild := func(shard, start, only int, budget time.Duration, skipList string) (res *childResult, exit int, outFile, caseFile string) {
+	runChild := func(shard, start, only int, budget time.Duration, skipList string) (res, partial *childResult, exit int, outFile, caseFile string) {
 		tag := fmt.Sprintf("C05.shard-%d", shard)
 		if only >= 0 {
 			tag = fmt.Sprintf("C05.single-%d", only)
@@ -612,8 +640,12 @@ func TestC05(t *testing.T) {
 		}
 		if b, e := os.ReadFile(resFile); e == nil {
 			var cr childResult
-			if json.Unmarshal(b, &cr) == nil && cr.Done {
-				res = &cr
+			if json.Unmarshal(b, &cr) == nil {
+				if cr.Done {
+					res = &cr
+				} else {
+					partial = &cr
+				}
 			}
 		}
 		return
@@ -640,12 +672,36 @@ func TestC05(t *testing.T) {
 	}
 	fatalLine := func(outFile string) string {
 		b, _ := os.ReadFile(outFile)
-		for _, l := range strings.Split(string(b), "\n") {
-			if strings.HasPrefix(l, "fatal error:") || strings.HasPrefix(l, "panic:") || strings.HasPrefix(l, "runtime:") {
-				return lib.Trunc(l, 200)
+		lines := strings.Split(string(b), "\n")
+		for _, pre := range []string{"fatal error:", "panic:", "runtime:"} {
+			for _, l := range lines {
+				if strings.HasPrefix(l, pre) {
+					return lib.Trunc(l, 200)
+				}
 			}
 		}
 		return lib.Trunc(string(b), 200)
+	}
+
+	// allocating reports whether the child's goroutine dump shows the decoding goroutine inside
+	// the runtime's allocation paths: a Decode that does not come back because it is busy
+	// building a collection sized from the wire is the allocation clause, not a loop.
+	allocating := func(outFile string) bool {
+		b, _ := os.ReadFile(outFile)
+		for _, blk := range strings.Split(string(b), "\n\n") {
+			if !strings.Contains(blk, "TestC05Child") {
+				continue
+			}
+			for _, m := range []string{"runtime.makemap", "internal/runtime/maps.", "runtime.mallocgc", "runtime.makeslice", "runtime.growslice", "runtime.newobject", "runtime.memclr"} {
+				if strings.Contains(blk, m) {
+					return true
+				}
+			}
+		}
+		return false
+	}
+	oom := func(fatal string) bool {
+		return strings.Contains(fatal, "out of memory") || strings.Contains(fatal, "cannot allocate memory")
 	}
 
 	var wg sync.WaitGroup
@@ -662,14 +718,19 @@ func TestC05(t *testing.T) {
 				}
 				mu.Unlock()
 				sort.Strings(sk)
-				res, exit, outFile, caseFile := runChild(shard, start, -1, caseWatchdog, strings.Join(sk, ","))
+				res, partial, exit, outFile, caseFile := runChild(shard, start, -1, caseWatchdog, strings.Join(sk, ","))
 				if res != nil {
 					mu.Lock()
 					merge(merged, res)
 					mu.Unlock()
 					return
 				}
-				// the child died: attribute by its case file
+				// the child died: keep what it had checkpointed, attribute the death by its case file
+				if partial != nil {
+					mu.Lock()
+					merge(merged, partial)
+					mu.Unlock()
+				}
 				lc := readCase(caseFile)
 				if lc == nil {
 					r.Inconclusive(fmt.Sprintf("shard %d ended with status %d without result and without case file; see %s", shard, exit, outFile))
@@ -680,7 +741,6 @@ func TestC05(t *testing.T) {
 				restarts++
 				mu.Unlock()
 				if _, err := os.Stat(caseFile + ".hang"); err == nil && exit == 3 {
-					addQuarantine(lc.Type)
 					mu.Lock()
 					seen := hangSeen[lc.Type]
 					hangSeen[lc.Type] = 1
@@ -692,16 +752,34 @@ func TestC05(t *testing.T) {
 						continue
 					}
 					// watchdog: confirm alone, in a fresh process, with 3x the budget
-					res2, exit2, out2, _ := runChild(shard, 0, lc.Idx, 3*caseWatchdog, "")
+					res2, _, exit2, out2, _ := runChild(shard, 0, lc.Idx, 3*caseWatchdog, "")
 					if res2 == nil && exit2 == 3 {
+						addQuarantine(lc.Type)
 						mu.Lock()
 						hangsConfirmed++
 						mu.Unlock()
-						r.Violation("decode-hang:"+lc.Type, fmt.Sprintf("Decode of an in-memory %d-byte payload did not return within %s, confirmed alone in a fresh process within %s", lc.PayloadLen, caseWatchdog, 3*caseWatchdog),
+						kind, how := "decode-hang:", "did not return"
+						if allocating(out2) {
+							kind, how = "decode-alloc:", "was still allocating memory (stack inside the runtime allocator) and had not returned"
+						}
+						r.Violation(kind+lc.Type, fmt.Sprintf("Decode of an in-memory %d-byte payload %s within %s, confirmed alone in a fresh process within %s", lc.PayloadLen, how, caseWatchdog, 3*caseWatchdog),
 							map[string]any{"row": lc.Row, "kind": lc.Kind, "idx": lc.Idx, "payload_len": lc.PayloadLen, "payload_hex": lib.Trunc(lc.PayloadHex, 4000), "child_output": out2})
+					} else if res2 == nil {
+						// alone it did not hang but died: that is the crash clause
+						mu.Lock()
+						crashes++
+						mu.Unlock()
+						kind := "decode-crash:"
+						if oom(fatalLine(out2)) {
+							kind = "decode-alloc:"
+						}
+						r.Violation(kind+lc.Type, fmt.Sprintf("the process died while decoding a %d-byte payload (%s): %s", lc.PayloadLen, lc.Kind, fatalLine(out2)),
+							map[string]any{"row": lc.Row, "kind": lc.Kind, "idx": lc.Idx, "payload_len": lc.PayloadLen, "payload_hex": lib.Trunc(lc.PayloadHex, 4000), "child_exit": exit2, "child_output_file": out2, "fatal": fatalLine(out2)})
 					} else {
 						mu.Lock()
 						hangsUnconfirmed++
+						hangSeen[lc.Type] = 0 // let a later case of this type be confirmed
+						delete(quarantine, lc.Type)
 						mu.Unlock()
 						r.Inconclusive(fmt.Sprintf("case %d (%s, %s) exceeded the watchdog in the batch but returned when re-run alone", lc.Idx, lc.Row, lc.Kind))
 					}
@@ -709,7 +787,11 @@ func TestC05(t *testing.T) {
 					mu.Lock()
 					crashes++
 					mu.Unlock()
-					r.Violation("decode-crash:"+lc.Type, fmt.Sprintf("the process died while decoding a %d-byte payload (%s): %s", lc.PayloadLen, lc.Kind, fatalLine(outFile)),
+					kind := "decode-crash:"
+					if oom(fatalLine(outFile)) {
+						kind = "decode-alloc:" // killed by the allocation itself
+					}
+					r.Violation(kind+lc.Type, fmt.Sprintf("the process died while decoding a %d-byte payload (%s): %s", lc.PayloadLen, lc.Kind, fatalLine(outFile)),
 						map[string]any{"row": lc.Row, "kind": lc.Kind, "idx": lc.Idx, "payload_len": lc.PayloadLen, "payload_hex": lib.Trunc(lc.PayloadHex, 4000), "child_exit": exit, "child_output_file": outFile, "fatal": fatalLine(outFile)})
 				}
 				addQuarantine(lc.Type)
@@ -800,6 +882,35 @@ func TestC05(t *testing.T) {
 	r.Set("calibration_max_alloc_bytes_by_type", top(func(s *typeStat) float64 { return float64(s.MaxAlloc) }))
 	r.Set("slowest_decode_ms_by_type_informational", top(func(s *typeStat) float64 { return s.MaxDurationMs }))
 	r.Set("packet_types_targeted", len(merged.Types))
+	// margins actually observed in this run (types in violation excluded)
+	inViolation := map[string]bool{}
+	for s := range bySig {
+		if i := strings.Index(s, ":"); i >= 0 {
+			inViolation[s[i+1:]] = true
+		}
+	}
+	for q := range quarantine {
+		inViolation[q] = true
+	}
+	var maxTiny uint64
+	var maxRatio float64
+	for k, s := range merged.Types {
+		if inViolation[k] {
+			continue
+		}
+		if s.MaxTinyAlloc > maxTiny {
+			maxTiny = s.MaxTinyAlloc
+		}
+		if s.MaxRatio > maxRatio {
+			maxRatio = s.MaxRatio
+		}
+	}
+	if maxTiny > 0 {
+		r.Set("calibration_margin_fixed_cap_over_observed", fmt.Sprintf("%.1fx (cap %d / observed %d)", float64(allocFixedCap)/float64(maxTiny), allocFixedCap, maxTiny))
+	}
+	if maxRatio > 0 {
+		r.Set("calibration_margin_per_byte_over_observed_incl_fixed_part", fmt.Sprintf("%.1fx (%d / observed %.0f)", float64(allocPerByte)/maxRatio, allocPerByte, maxRatio))
+	}
 }
 
 func merge(dst, src *childResult) {
